@@ -1,10 +1,10 @@
 #!/bin/sh
 # usage: seed_check4.sh <seeded dir name> <check id> [tier]
 # one scratch clone of /repo per invocation (parallel-safe); evidence and replays redirected; /repo and /verif/evidence never touched
-S=/verif/seeded/$1; ID=$2; TIER=${3:-quick}; R=/tmp/seed/clone_$1; EV=/tmp/seed/ev4_$1
+V=${VERIF_HOME:-/verif}; S=$V/seeded/$1; ID=$2; TIER=${3:-quick}; R=/tmp/seed/clone_$1; EV=/tmp/seed/ev4_$1
 rm -rf $R $EV; git clone -q /repo $R; mkdir -p $EV/ev $EV/rp
 git -C $R apply $S/patch.diff || { echo "$1: patch does not apply"; rm -rf $R $EV; exit 2; }
-mkdir -p /tmp/seed/tmp4_$1; cd /verif && VERIF_TMP=/tmp/seed/tmp4_$1 VERIF_EVIDENCE_DIR=$EV/ev VERIF_REPLAY_DIR=$EV/rp VERIF_REPO=$R ./check $ID --tier $TIER > /tmp/seed/check4_$1_$ID.log 2>&1; RC=$?
+mkdir -p /tmp/seed/tmp4_$1; cd $V && VERIF_TMP=/tmp/seed/tmp4_$1 VERIF_EVIDENCE_DIR=$EV/ev VERIF_REPLAY_DIR=$EV/rp VERIF_REPO=$R ./check $ID --tier $TIER > /tmp/seed/check4_$1_$ID.log 2>&1; RC=$?
 echo "$1 vs $ID ($TIER): exit $RC; $(grep -c '^VIOLATION' /tmp/seed/check4_$1_$ID.log) violation line(s)"
 grep -A1 '^VIOLATION' /tmp/seed/check4_$1_$ID.log | head -3 | cut -c1-330
 [ $RC = 2 ] && grep -vE "^\s*\|*line |^<|^\s+\|" /tmp/seed/check4_$1_$ID.log | tail -5
